@@ -339,6 +339,10 @@ def run_shard(mod, tier, seed, idx, n, outfile):
             if budget and time.monotonic() - t0 > budget:
                 ctx.count("cases_skipped_time_budget")
                 continue
+            if sum("nontermination" in v["key"] for v in ctx.violations) >= 3:
+                # the verdict is decided; do not burn a budget per remaining case
+                ctx.count("cases_skipped_after_nontermination_witnesses")
+                continue
             ctx.case = case
             try:
                 mod.run_case(case, ctx)
@@ -431,7 +435,7 @@ def report(mod, tier, seed, m, wall):
     rc = 0
     replays = []
     if unlisted:
-        rdir = os.path.join(VERIF, "replays", mod.ID)
+        rdir = os.path.join(os.environ.get("VERIF_REPLAY_DIR") or os.path.join(VERIF, "replays"), mod.ID)
         os.makedirs(rdir, exist_ok=True)
         seen_keys = {}
         for v in unlisted:
@@ -489,8 +493,9 @@ def report(mod, tier, seed, m, wall):
     ev = dict(property_id=mod.ID, tier=tier, seed=seed, level=mod.LEVEL,
               coverage=coverage, assumptions=list(mod.ASSUMPTIONS),
               wall_s=round(wall, 2), violations=len(unlisted))
-    os.makedirs(os.path.join(VERIF, "evidence"), exist_ok=True)
-    path = os.path.join(VERIF, "evidence", f"{mod.ID}.json")
+    evdir = os.environ.get("VERIF_EVIDENCE_DIR") or os.path.join(VERIF, "evidence")
+    os.makedirs(evdir, exist_ok=True)
+    path = os.path.join(evdir, f"{mod.ID}.json")
     with open(path + ".tmp", "w") as f:
         json.dump(ev, f, indent=1, default=repr)
     os.replace(path + ".tmp", path)
